@@ -459,6 +459,39 @@ INJECTOR_NAMES_2 = {
 }
 
 
+
+# ---- round 10 (hunt on the unchanged tree): reproducers of the repaired defects and of the recorded findings
+ROUND10 = {
+    'DOT_KESSOKU': 'package main\n\nimport (\n\t"context"\n\n\t. "github.com/mazrean/kessoku"\n)\n\ntype DB struct{ S string }\ntype Cache struct{}\ntype App struct {\n\tD *DB\n\tC *Cache\n}\n\nfunc NewDB() (*DB, error)         { return &DB{"db"}, nil }\nfunc NewCache() *Cache            { return &Cache{} }\nfunc NewApp(d *DB, c *Cache) *App { return &App{d, c} }\n\nvar _ = Inject[*App]("InitApp", Async(Provide(NewDB)), Async(Provide(NewCache)), Provide(NewApp))\n\nfunc main() {\n\ta, err := InitApp(context.Background())\n\tif err != nil || a.D.S != "db" {\n\t\tpanic("wrong result")\n\t}\n}\n',
+    'ERR_NOT_LAST': 'package main\n\nimport (\n\t"errors"\n\n\t"github.com/mazrean/kessoku"\n)\n\ntype Conn struct{ S string }\ntype Warning interface{ Error() string }\ntype App struct {\n\tC *Conn\n\tW Warning\n}\n\nfunc Open() (*Conn, error, Warning) { return &Conn{"c"}, nil, errors.New("deprecated driver") }\nfunc NewApp(c *Conn, w Warning) *App { return &App{c, w} }\n\nvar _ = kessoku.Inject[*App]("InitApp", kessoku.Provide(Open), kessoku.Provide(NewApp))\n\ntype Svc struct{ C *Conn }\n\nfunc Dial() (error, *Conn)  { return nil, &Conn{"d"} }\nfunc NewSvc(c *Conn) *Svc   { return &Svc{c} }\n\nvar _ = kessoku.Inject[*Svc]("InitSvc", kessoku.Provide(Dial), kessoku.Provide(NewSvc))\n\nfunc main() {\n\ta, err := InitApp()\n\tif err != nil || a == nil || a.C.S != "c" || a.W == nil || a.W.Error() != "deprecated driver" {\n\t\tpanic("wrong result")\n\t}\n\ts, err := InitSvc()\n\tif err != nil || s.C.S != "d" {\n\t\tpanic("wrong result")\n\t}\n}\n',
+    'BIND_STRUCT': 'package main\n\nimport "github.com/mazrean/kessoku"\n\ntype Namer interface{ Name() string }\ntype Port int\ntype Config struct {\n\tPort Port\n\tname string\n}\n\nfunc (c *Config) Name() string { return c.name }\nfunc NewConfig() *Config       { return &Config{Port: 5, name: "cfg"} }\n\ntype App struct {\n\tN Namer\n\tP Port\n}\n\nfunc NewApp(n Namer, p Port) *App { return &App{n, p} }\n\nvar _ = kessoku.Inject[*App]("InitApp", kessoku.Provide(NewConfig), kessoku.Bind[Namer](kessoku.Struct[*Config]()), kessoku.Provide(NewApp))\n\nfunc main() {\n\tvar f func() *App = InitApp\n\ta := f()\n\tif a.N.Name() != "cfg" || a.P != 5 {\n\t\tpanic("wrong result")\n\t}\n}\n',
+    'BIND_STRUCT_DUP': 'package main\n\nimport "github.com/mazrean/kessoku"\n\ntype Namer interface{ Name() string }\ntype Port int\ntype Config struct {\n\tPort Port\n\tname string\n}\n\nfunc (c *Config) Name() string { return c.name }\nfunc NewConfig() *Config       { return &Config{Port: 5, name: "cfg"} }\n\ntype Other struct{}\n\nfunc (*Other) Name() string { return "other" }\nfunc NewOther() *Other      { return &Other{} }\n\ntype App struct{ N Namer }\n\nfunc NewApp(n Namer, p Port) *App { return &App{n} }\n\nvar _ = kessoku.Inject[*App]("InitApp", kessoku.Provide(NewConfig), kessoku.Bind[Namer](kessoku.Struct[*Config]()), kessoku.Bind[Namer](kessoku.Provide(NewOther)), kessoku.Provide(NewApp))\n\nfunc main() {}\n',
+    'BUILTIN_CLOSE': 'package main\n\nimport (\n\t"context"\n\n\t"github.com/mazrean/kessoku"\n)\n\ntype A struct{}\ntype B struct{ a *A }\n\nfunc close(v any) {}\n\nfunc NewA() *A     { return &A{} }\nfunc NewB(a *A) *B { return &B{a} }\n\nvar _ = kessoku.Inject[*B]("InitB", kessoku.Async(kessoku.Provide(NewA)), kessoku.Async(kessoku.Provide(NewB)))\n\nfunc main() {\n\tclose(nil)\n\tif InitB(context.Background()) == nil {\n\t\tpanic("wrong result")\n\t}\n}\n',
+    'BUILTIN_MAKE': 'package main\n\nimport (\n\t"context"\n\n\t"github.com/mazrean/kessoku"\n)\n\ntype A struct{}\ntype B struct{ a *A }\n\nvar make = 1\n\nfunc NewA() *A     { return &A{} }\nfunc NewB(a *A) *B { return &B{a} }\n\nvar _ = kessoku.Inject[*B]("InitB", kessoku.Async(kessoku.Provide(NewA)), kessoku.Async(kessoku.Provide(NewB)))\n\nfunc main() {\n\t_ = make\n\tif InitB(context.Background()) == nil {\n\t\tpanic("wrong result")\n\t}\n}\n',
+    'FUNC_TYPE': 'package main\n\nimport "github.com/mazrean/kessoku"\n\ntype DB struct{ S string }\ntype Factory func() *DB\ntype Maker = func(*DB) *App\ntype App struct{ D *DB }\n\nvar factory Factory = func() *DB { return &DB{"db"} }\nvar maker Maker = func(d *DB) *App { return &App{d} }\n\nvar _ = kessoku.Inject[*App]("InitApp", kessoku.Provide(factory), kessoku.Provide(maker))\n\nfunc main() {\n\tif InitApp().D.S != "db" {\n\t\tpanic("wrong result")\n\t}\n}\n',
+    'STRUCT_ALIAS_PTR': 'package main\n\nimport "github.com/mazrean/kessoku"\n\ntype Port int\ntype Config struct{ Port Port }\ntype ConfigPtr = *Config\ntype App struct{ P Port }\n\nfunc NewConfig() *Config { return &Config{Port: 7} }\nfunc NewApp(p Port) *App { return &App{p} }\n\nvar _ = kessoku.Inject[*App]("InitApp", kessoku.Provide(NewConfig), kessoku.Struct[ConfigPtr](), kessoku.Provide(NewApp))\n\nfunc main() {\n\tif InitApp().P != 7 {\n\t\tpanic("wrong result")\n\t}\n}\n',
+    'LOCAL_SET': 'package main\n\nimport "github.com/mazrean/kessoku"\n\ntype DB struct{ S string }\ntype App struct{ D *DB }\n\nfunc NewDB() *DB        { return &DB{"db"} }\nfunc NewApp(d *DB) *App { return &App{d} }\n\nfunc wiring() {\n\ts := kessoku.Set(kessoku.Provide(NewDB))\n\t_ = kessoku.Inject[*App]("InitApp", s, kessoku.Provide(NewApp))\n}\n\nfunc main() {\n\tvar f func() *App = InitApp\n\tif f().D.S != "db" {\n\t\tpanic("wrong result")\n\t}\n}\n',
+    'SHARED_SET_DOT_LIB': 'package lib\n\nfunc NewName() string { return "x" }\n',
+    'SHARED_SET_DOT': 'package main\n\nimport (\n\t. "vscratch/shared_set_dot/lib"\n\n\t"github.com/mazrean/kessoku"\n)\n\ntype Repo struct{}\ntype App struct{ name string }\n\nfunc NewRepo() *Repo                { return &Repo{} }\nfunc NewApp(n string, _ *Repo) *App { return &App{n} }\n\nvar Set = kessoku.Set(\n\tkessoku.Provide(NewName),\n\tkessoku.Provide(NewRepo),\n\tkessoku.Provide(NewApp),\n)\n\nvar _ = kessoku.Inject[*Repo]("InitRepo", Set)\nvar _ = kessoku.Inject[*App]("InitApp", Set)\n\nfunc main() {\n\tif InitRepo() == nil || InitApp().name != "x" {\n\t\tpanic("wrong result")\n\t}\n}\n',
+    'NAME_TAKEN_A': 'package main\n\nimport "github.com/mazrean/kessoku"\n\ntype Repo struct{}\ntype App struct{ r *Repo }\n\nfunc NewRepo() *Repo      { return &Repo{} }\nfunc NewApp(r *Repo) *App { return &App{r} }\n\nvar _ = kessoku.Inject[*App]("NewApp", kessoku.Provide(NewRepo), kessoku.Provide(NewApp))\n\nfunc main() {}\n',
+    'NAME_TAKEN_B': 'package main\n\nimport "github.com/mazrean/kessoku"\n\ntype Repo struct{}\ntype App struct{ r *Repo }\n\nfunc NewRepo() *Repo      { return &Repo{} }\nfunc NewApp(r *Repo) *App { return &App{r} }\n\nvar _ = kessoku.Inject[*Repo]("Initialize", kessoku.Provide(NewRepo))\nvar _ = kessoku.Inject[*App]("Initialize", kessoku.Provide(NewRepo), kessoku.Provide(NewApp))\n\nfunc main() {}\n',
+    'NAME_TAKEN_C1': 'package main\n\nimport "github.com/mazrean/kessoku"\n\ntype Repo struct{}\n\nfunc NewRepo() *Repo { return &Repo{} }\n\nvar _ = kessoku.Inject[*Repo]("Initialize", kessoku.Provide(NewRepo))\n\nfunc main() {}\n',
+    'NAME_TAKEN_C2': 'package main\n\nimport "github.com/mazrean/kessoku"\n\ntype App struct{ r *Repo }\n\nfunc NewApp(r *Repo) *App { return &App{r} }\n\nvar _ = kessoku.Inject[*App]("Initialize", kessoku.Provide(NewRepo), kessoku.Provide(NewApp))\n',
+    'BUILD_TAG_FREE': '//go:build !pro\n\npackage main\n\nimport "github.com/mazrean/kessoku"\n\nfunc NewFree() *App { return &App{"free"} }\n\nvar _ = kessoku.Inject[*App]("InitApp", kessoku.Provide(NewFree))\n',
+    'BUILD_TAG_PRO': '//go:build pro\n\npackage main\n\nimport "github.com/mazrean/kessoku"\n\nfunc NewPro() *App { return &App{"pro"} }\n\nvar _ = kessoku.Inject[*App]("InitApp", kessoku.Provide(NewPro))\n',
+    'BUILD_TAG_MAIN': 'package main\n\ntype App struct{ edition string }\n\nfunc main() {\n\tif e := InitApp().edition; e != "free" && e != "pro" {\n\t\tpanic("wrong result")\n\t}\n}\n',
+    'HANDWRITTEN_BAND_K': 'package main\n\nimport "github.com/mazrean/kessoku"\n\ntype App struct{ s string }\n\nfunc NewApp() *App { return &App{helper()} }\n\nvar _ = kessoku.Inject[*App]("InitApp", kessoku.Provide(NewApp))\n\nfunc main() {\n\tif InitApp().s != "h" {\n\t\tpanic("wrong result")\n\t}\n}\n',
+    'HANDWRITTEN_BAND_B': 'package main\n\n// written by hand: a marching band, not kessoku output\nfunc helper() string { return "h" }\n',
+    'CTX_KEPT': 'package main\n\nimport (\n\t"context"\n\n\t"github.com/mazrean/kessoku"\n)\n\ntype Server struct{ base context.Context }\ntype Cache struct{}\ntype App struct {\n\ts *Server\n\tc *Cache\n}\n\nfunc NewServer(ctx context.Context) *Server { return &Server{base: ctx} }\nfunc NewCache() *Cache                     { return &Cache{} }\nfunc NewApp(s *Server, c *Cache) *App      { return &App{s, c} }\n\nvar _ = kessoku.Inject[*App]("InitApp", kessoku.Provide(NewServer), kessoku.Async(kessoku.Provide(NewCache)), kessoku.Provide(NewApp))\n\nfunc main() {\n\tctx, cancel := context.WithCancel(context.Background())\n\tdefer cancel()\n\ta := InitApp(ctx)\n\tif a.s.base.Err() != nil {\n\t\tpanic("wrong result: the provider was handed a context that is cancelled when the injector returns")\n\t}\n}\n',
+    'INTERNAL_IMPL': 'package impl\n\ntype Client struct{ S string }\n',
+    'INTERNAL_LIB': 'package lib\n\nimport "vscratch/known_KF_C04_26/lib/internal/impl"\n\nfunc NewClient() *impl.Client { return &impl.Client{S: "c"} }\nfunc Name(c *impl.Client) string { return c.S }\n',
+    'INTERNAL_K': 'package main\n\nimport (\n\t"context"\n\n\t"github.com/mazrean/kessoku"\n\t"vscratch/known_KF_C04_26/lib"\n)\n\ntype Cache struct{}\ntype App struct{ name string }\n\nfunc NewCache() *Cache { return &Cache{} }\n\nvar _ = kessoku.Inject[*App]("InitApp", kessoku.Async(kessoku.Provide(lib.NewClient)), kessoku.Async(kessoku.Provide(NewCache)),\n\tkessoku.Provide(func(c *Cache) *App { return &App{"x"} }))\n\nfunc main() { _ = InitApp(context.Background()) }\n',
+    'GOOS_LINUX': 'package main\n\nimport "github.com/mazrean/kessoku"\n\nfunc NewLinux() *App { return &App{"linux"} }\n\nvar _ = kessoku.Inject[*App]("InitApp", kessoku.Provide(NewLinux))\n',
+    'GOOS_WINDOWS': 'package main\n\nimport "github.com/mazrean/kessoku"\n\nfunc NewWindows() *App { return &App{"windows"} }\n\nvar _ = kessoku.Inject[*App]("InitApp", kessoku.Provide(NewWindows))\n',
+    'GOOS_MAIN': 'package main\n\ntype App struct{ os string }\n\nfunc main() { _ = InitApp() }\n',
+}
+
+
 # a renamed import whose real name is used for a LOCAL variable inside a copied function literal (repaired: the import
 # keeps the name the file gives it)
 ALIAS_CAPTURE = {
@@ -616,6 +649,27 @@ def _stage(seed, tier, key="N-x"):
     pkgs.append(("unused_result_pkg", UNUSED_RESULT_PKG, ["k.go"], None, dict(kind="imports: an unneeded result whose type comes from an otherwise unmentioned package", run=True)))
     pkgs.append(("injector_names_2", INJECTOR_NAMES_2, ["a.go", "b.go"], None, dict(kind="naming: an injector declared in another file of the invocation", run=True)))
     pkgs.append(("injector_names_2r", INJECTOR_NAMES_2, ["b.go", "a.go"], None, dict(kind="naming: an injector declared in another file of the invocation (other order)", run=True)))
+    R = ROUND10
+    pkgs.append(("err_not_last", {"k.go": R["ERR_NOT_LAST"]}, ["k.go"], None, dict(kind="an error result that is not the last result", run=True, value_check=True)))
+    pkgs.append(("bind_struct", {"k.go": R["BIND_STRUCT"]}, ["k.go"], None, dict(kind="Bind over a Struct expansion", run=True, value_check=True, expect_params={"k_band.go": {"InitApp": []}})))
+    pkgs.append(("bind_struct_dup", {"k.go": R["BIND_STRUCT_DUP"]}, ["k.go"], None, dict(kind="an interface bound to a Struct expansion and to a provider", expect_refused="multiple providers")))
+    pkgs.append(("builtin_close", {"k.go": R["BUILTIN_CLOSE"]}, ["k.go"], None, dict(kind="a package-level close hides the builtin the generated code calls", run=True, also=["C03"])))
+    pkgs.append(("builtin_make", {"k.go": R["BUILTIN_MAKE"]}, ["k.go"], None, dict(kind="a package-level make hides the builtin the generated code calls", run=True)))
+    pkgs.append(("func_type", {"k.go": R["FUNC_TYPE"]}, ["k.go"], None, dict(kind="providers of a defined / alias function type", run=True, expect_accept=True, expect_funcs={"k_band.go": ["InitApp"]})))
+    pkgs.append(("struct_alias_ptr", {"k.go": R["STRUCT_ALIAS_PTR"]}, ["k.go"], None, dict(kind="Struct of an alias of a pointer type", run=True, expect_accept=True, expect_funcs={"k_band.go": ["InitApp"]})))
+    pkgs.append(("dot_kessoku", {"k.go": R["DOT_KESSOKU"]}, ["k.go"], None, dict(kind="kessoku itself dot-imported", run=True, expect_accept=True, expect_funcs={"k_band.go": ["InitApp"]})))
+    pkgs.append(("local_set", {"k.go": R["LOCAL_SET"]}, ["k.go"], None, dict(kind="a Set held in a := variable", run=True, value_check=True, expect_params={"k_band.go": {"InitApp": []}})))
+    pkgs.append(("shared_set_dot", {"k.go": R["SHARED_SET_DOT"], "lib/l.go": R["SHARED_SET_DOT_LIB"]}, ["k.go"], None, dict(kind="imports: a Set shared by two injectors, one provider dot-imported", run=True)))
+    pkgs.append(("name_taken_a", {"k.go": R["NAME_TAKEN_A"]}, ["k.go"], None, dict(kind="an injector named like a function of the package", run=True)))
+    pkgs.append(("name_taken_b", {"k.go": R["NAME_TAKEN_B"]}, ["k.go"], None, dict(kind="two injectors of one file with the same name", run=True)))
+    pkgs.append(("name_taken_c", {"k.go": R["NAME_TAKEN_C1"], "k2.go": R["NAME_TAKEN_C2"]}, ["k.go", "k2.go"], None, dict(kind="two injectors of two files with the same name", run=True)))
+    pkgs.append(("build_tags", {"app_free.go": R["BUILD_TAG_FREE"], "app_pro.go": R["BUILD_TAG_PRO"], "main.go": R["BUILD_TAG_MAIN"]}, ["app_free.go"], None,
+                 dict(kind="sources under complementary build constraints", run=True, vet_tags=["pro"],
+                      more_steps=[dict(targets=["app_pro.go"], goflags="-mod=mod -tags=pro")])))
+    pkgs.append(("handwritten_band", {"k.go": R["HANDWRITTEN_BAND_K"], "k_band.go": R["HANDWRITTEN_BAND_B"]}, ["k.go"], None, dict(kind="a hand-written file at the output's path", run=True)))
+    pkgs.append(("known_KF_C02_1", {"k.go": R["CTX_KEPT"]}, ["k.go"], "KF-C02-1", dict(kind="known finding reproducer (a provider keeps the context it is given)", signature="no vet signature: the file compiles", run=True, run_signature="cancelled when the injector returns")))
+    pkgs.append(("known_KF_C04_26", {"k.go": R["INTERNAL_K"], "lib/l.go": R["INTERNAL_LIB"], "lib/internal/impl/i.go": R["INTERNAL_IMPL"]}, ["k.go"], "KF-C04-26", dict(kind="known finding reproducer (a value of an internal package's type in the var block)", signature=r"use of internal package .* not allowed")))
+    pkgs.append(("known_KF_C04_27", {"app_linux.go": R["GOOS_LINUX"], "app_windows.go": R["GOOS_WINDOWS"], "main.go": R["GOOS_MAIN"]}, ["app_linux.go"], "KF-C04-27", dict(kind="known finding reproducer (a source constrained by its file name)", signature=r"undefined: NewLinux", vet_env={"GOOS": "windows"})))
     pkgs.append(("xset", XSET, ["k.go"], "KF-C10-1", dict(kind="known finding reproducer (Set of another package)", signature="no vet signature: the file compiles",
                                                        expect_params={"k_band.go": {"InitB": []}}, known_params={"k_band.go": {"InitB": ["*prov.A"]}})))
     pkgs.append(("known_KF_C04_24", UNEXPORTED_TYPE, ["k.go"], "KF-C04-24", dict(kind="known finding reproducer", signature=r"(not exported by package lib|cannot refer to unexported|unexported)")))
@@ -626,6 +680,11 @@ def _stage(seed, tier, key="N-x"):
         name, files, targets, expect, meta = p
         d = write_pkg(mod, name, files)
         rc, o, e = vlib.run([kessoku] + targets, cwd=d, env=vlib.goenv(), timeout=120)
+        for step in meta.get("more_steps", []) if rc == 0 else []:
+            # a further invocation under another build configuration (its output joins the package)
+            rc, o, e = vlib.run([kessoku] + step["targets"], cwd=d, env=dict(vlib.goenv(), GOFLAGS=step["goflags"]), timeout=120)
+            if rc:
+                break
         if rc == 0 and meta.get("then"):
             # the wiring shrinks and the file is regenerated in place, over the longer previous output
             for fn, txt in meta["then"].items():
@@ -635,9 +694,16 @@ def _stage(seed, tier, key="N-x"):
         rec = dict(name=name, expect=expect, meta=meta, gen_rc=rc, gen_err=e[-600:] if rc else "", vet_rc=None, vet="", run_rc=None, dir=name)
         if rc != 0:
             return rec
-        rc2, o2, e2 = vlib.run(["go", "vet"] + meta.get("vet_pkgs", ["."]), cwd=d, env=vlib.goenv(), timeout=600)
+        rc2, o2, e2 = vlib.run(["go", "vet"] + meta.get("vet_pkgs", ["."]), cwd=d, env=dict(vlib.goenv(), **meta.get("vet_env", {})), timeout=600)
         rec["vet_rc"] = rc2
         rec["vet"] = (o2 + e2)[-1500:]
+        for tag in meta.get("vet_tags", []) if rc2 == 0 else []:
+            # the package must compile under the other build configuration too
+            rc2, o2, e2 = vlib.run(["go", "vet", "-tags", tag] + meta.get("vet_pkgs", ["."]), cwd=d, env=vlib.goenv(), timeout=600)
+            rec["vet_rc"] = rc2
+            rec["vet"] = ("[-tags %s] " % tag) + (o2 + e2)[-1500:]
+            if rc2:
+                break
         if rc2 == 0 and (meta.get("run") or meta.get("run_pkgs")):
             for rp in meta.get("run_pkgs", ["."]):
                 rc3, o3, e3 = vlib.run(["go", "run", rp], cwd=d, env=vlib.goenv(), timeout=300)
